@@ -56,6 +56,7 @@ type Rig struct {
 	Ctrl     controller.FanController
 	Pers     persistence.Persistence
 	Events   int64
+	Evals    int64
 	mu       sync.Mutex
 	log      []util.VerifEvent
 	onEvent  func(n int64, ev *util.VerifEvent)
@@ -127,9 +128,12 @@ func newRig(ctx *Ctx, spec RigSpec) *Rig {
 		r.Curve = lin()
 	}
 
+	proxy := &countingCurve{id: uniqueId("rigcount"), inner: r.Curve, evals: &r.Evals}
+	curves.RegisterSpeedCurve(proxy)
+
 	// ---- fan
 	fid := uniqueId("rigfan")
-	cfg := configuration.FanConfig{ID: fid, Curve: r.Curve.GetId(), NeverStop: spec.NeverStop}
+	cfg := configuration.FanConfig{ID: fid, Curve: proxy.id, NeverStop: spec.NeverStop}
 	switch spec.FanKind {
 	case "hwmon", "file":
 		_ = os.WriteFile(r.PwmPath, []byte("0"), 0644)
@@ -302,6 +306,20 @@ func (r *Rig) cmdWrites() []int {
 	}
 	return out
 }
+
+// countingCurve lets the harness see control cycles: the controller evaluates its curve exactly once per cycle.
+type countingCurve struct {
+	id    string
+	inner curves.SpeedCurve
+	evals *int64
+}
+
+func (c *countingCurve) GetId() string { return c.id }
+func (c *countingCurve) Evaluate() (int, error) {
+	atomic.AddInt64(c.evals, 1)
+	return c.inner.Evaluate()
+}
+func (c *countingCurve) CurrentValue() int { return c.inner.CurrentValue() }
 
 type runResult struct {
 	Returned bool
